@@ -292,7 +292,7 @@ def _forms(repo, col):
         col.unk(R, fi, "compartment centres", str(e), node=ls)
     ex = idx.expander(repo, fi)
     # clipping from below: x[x < min_radius] = min_radius, or maximum(x, min_radius) / clip(x, min_radius, None) in the returned value
-    clipped, wrong = False, None
+    clipped, wrong, copied = False, None, None
     for s_ in ex.stores:
         if s_.kind == "sub" and s_.key.op == "cmp" and s_.value is not None:
             k = s_.key
@@ -301,7 +301,25 @@ def _forms(repo, col):
             if thr and arr:
                 below = (k.name in ("<", "<=") and k.args[0] is arr[0]) or (k.name in (">", ">=") and k.args[1] is arr[0])
                 if below and s_.value.op == "param" and s_.value.name == "min_radius":
-                    clipped = True
+                    # ... in the array that is RETURNED: the same array, or one that shares its memory (ravel / reshape / .T are views of a
+                    # contiguous array); flatten(), copy(), astype() and np.array() are copies that were taken before the clip
+                    rets = [r_ for r_ in ex.returns if r_ is not None]
+                    def shares(ret, base):
+                        t_ = ret
+                        while True:
+                            if t_.key() == base.key():
+                                return True
+                            if t_.op == "mcall" and t_.name in ("ravel", "reshape", "view", "squeeze", "transpose") and t_.args and t_.args[0].op != "free":
+                                t_ = t_.args[0]
+                            elif t_.op == "attr" and t_.name == "T":
+                                t_ = t_.args[0]
+                            else:
+                                return False
+                    if rets and not any(shares(r_, s_.base) or shares(s_.base, r_) for r_ in rets):
+                        wrong = s_
+                        copied = s_
+                    else:
+                        clipped = True
                 else:
                     wrong = s_
     for r_ in ex.returns:
@@ -315,6 +333,8 @@ def _forms(repo, col):
     col.add(R, fi, "radii below min_radius are raised to min_radius", "DISCHARGED" if clipped else ("VIOLATED" if wrong is not None else "UNDECIDED"),
             "x[x < min_radius] = min_radius" if clipped else
             (f"the clipping is `{unparse(wrong.node)[:70]}`: radii below min_radius must become min_radius and no other radius may change"
+             + (" -- and in the array that is returned: this one is another array (the returned one was copied from it before the clip, "
+                "e.g. with flatten()), so min_radius is silently ignored" if copied is not None else "")
              if wrong is not None else "clipping from below at min_radius not found"), node=wrong.node if wrong is not None else fi.node)
     # branch b is evaluated with ITS OWN radius function, at the centres
     calls_ = []
